@@ -4,10 +4,12 @@ import itertools
 from hypothesis import strategies as st
 
 from ..ref import cea608 as R
+from ..ref import sccprog as SP
 from ..runner import Sub, Violation, require
 
 from pycaption import SCCReader
-from pycaption.exceptions import CaptionLineLengthError, CaptionReadNoCaptions
+from pycaption.exceptions import (CaptionLineLengthError, CaptionReadNoCaptions,
+                                  CaptionReadTimingError)
 
 PROPERTY = "C15"
 RULE = ("SCC streams in the three caption modes: pop-on groups of 1-3 rows on non-adjacent "
@@ -47,7 +49,9 @@ def stream_strategy(tier):
                  for n in g] for g in groups]
         return {"mode": mode, "groups": groups, "ru": draw(st.sampled_from(["RU2", "RU3", "RU4"])),
                 "drop": draw(st.booleans()), "double": draw(st.booleans()), "mids": mids,
-                "terminate": draw(st.integers(0, 2)) != 0}
+                "terminate": draw(st.integers(0, 2)) != 0, "reuse": draw(SP.reuse_strategy()),
+                "tc": [draw(st.sampled_from(["seq", "seq", "seq", "plus24h", "repeat-first"]))
+                       for _ in groups]}
     return build()
 
 
@@ -70,7 +74,18 @@ def build(case, perm=None):
     def ctrl(name):
         return [R.MISC[name]] * d
 
+    tcs = case.get("tc") or ["seq"] * len(case["groups"])
+    t_first = t
+    t_seq = t
     for gi, lens in enumerate(case["groups"]):
+        # where this group sits on the timeline: after the previous one, exactly 24 h after the
+        # first group (same clock reading, a day later), or on the first group's timecode again
+        if gi and tcs[gi] == "plus24h":
+            t = t_first + 24 * 3600 * 30
+        elif gi and tcs[gi] == "repeat-first":
+            t = t_first
+        else:
+            t = t_seq
         order = list(range(len(lens)))
         if perm is not None:
             order = list(perm[gi])
@@ -104,6 +119,8 @@ def build(case, perm=None):
                     rows_all.append((texts[k], mids[gi][k]))
             lines += [R.timecode(t, case["drop"]) + "\t" + " ".join(w), ""]
             t += len(w) + 60
+        if not gi or tcs[gi] == "seq":
+            t_seq = t
     if mode == "roll" and term:
         lines += [R.timecode(t, case["drop"]) + "\t" + " ".join(ctrl(case["ru"]) + ctrl("CR")), ""]
     if mode == "paint" and term:
@@ -111,12 +128,12 @@ def build(case, perm=None):
     return "\n".join(lines), rows_all
 
 
-def _read_outcome(doc, rows):
+def _read_outcome(doc, rows, reuse=None):
     # a mid-row code occupies a cell: a row of n characters with a mid-row code shows n or n+1
     must_fail = [r for r, mid in rows if len(r) > 32]
     may_fail = [r for r, mid in rows if mid is not None and len(r) == 32]
     try:
-        cs = SCCReader().read(doc)
+        cs = SP.used_reader(reuse, doc).read(doc)
     except CaptionLineLengthError as e:
         msg = str(e)
         require(must_fail or may_fail,
@@ -131,6 +148,10 @@ def _read_outcome(doc, rows):
         return "error" if must_fail else "either"
     except CaptionReadNoCaptions:
         return "none"
+    except CaptionReadTimingError:
+        # timecodes that jump backwards can make a display shorter than 0.05 s: that is C06's
+        # rule; the stream is then not judged here
+        return "either"
     except Exception as e:  # noqa
         raise Violation(f"SCCReader.read raised {type(e).__name__}: {e}: {doc}")
     for c in cs.get_captions(cs.get_languages()[0]):
@@ -145,7 +166,9 @@ def _read_outcome(doc, rows):
 
 def check_stream(case, rec):
     doc, rows = build(case)
-    first = _read_outcome(doc, rows)
+    first = _read_outcome(doc, rows, case.get("reuse"))
+    if case.get("reuse"):
+        rec.label("reused-reader:" + case["reuse"][0])
     n_perm = 0
     perms = [list(itertools.permutations(range(len(g)))) for g in case["groups"]]
     combos = list(itertools.product(*perms))
